@@ -49,7 +49,7 @@ def _build_case(data, mode):
 
 def _shard(ctx, shard, nshards):
     native.setup()
-    for mode, n_examples, size in (('table', ctx.scale(1000, 6000), 700), ('real', ctx.scale(80, 500), 700)):
+    for mode, n_examples, size in (('table', ctx.scale(1000, 20000), 700), ('real', ctx.scale(80, 1500), 700)):
         def factory(mode=mode, n_examples=n_examples, size=size):
             @seed(runner.hseed(ctx, 9 if mode == 'table' else 109))
             @runner.hsettings(n_examples)
